@@ -30,7 +30,7 @@ def prepare(seed):
     if r.returncode:
         return None, 'patch does not apply: ' + r.stdout
     # fact extraction once, serially (shared cargo target dir)
-    env = dict(os.environ, MTSA_REPO=wt, MTSA_EVIDENCE_DIR=os.path.join(WT, 'ev-' + seed))
+    env = dict(os.environ, MTSA_REPO=wt, MTSA_EVIDENCE_DIR=os.path.join(WT, 'ev-' + seed), MTSA_KEEP_FACTS='400')
     r = sh('cd %s && timeout 900 python3 -c "import sys; sys.path.insert(0, \'.\'); from mtsa import facts; facts.extract(\'ship\'); facts.extract(\'test\')"' % V, env=env)
     if r.returncode:
         return wt, 'extraction failed: ' + r.stdout[-600:]
@@ -39,7 +39,7 @@ def prepare(seed):
 
 def run_one(arg):
     seed, wt, p = arg
-    env = dict(os.environ, MTSA_REPO=wt, MTSA_EVIDENCE_DIR=os.path.join(WT, 'ev-' + seed))
+    env = dict(os.environ, MTSA_REPO=wt, MTSA_EVIDENCE_DIR=os.path.join(WT, 'ev-' + seed), MTSA_KEEP_FACTS='400')
     r = sh('cd %s && timeout 1200 ./check %s --tier quick' % (V, p), env=env)
     lines = []
     if r.returncode:
